@@ -134,6 +134,8 @@ theorem mem_voxels_centre (vs : List P3) (w : P3) : mem (unionOf (vs.map cell)) 
 /-- a proper box: `lo ≤ hi` on every axis -/
 def Box.ok (b : Box) : Prop := b.lo.x ≤ b.hi.x ∧ b.lo.y ≤ b.hi.y ∧ b.lo.z ≤ b.hi.z
 
+instance (b : Box) : Decidable b.ok := by unfold Box.ok; exact inferInstance
+
 theorem strictIn_pose (s : Nat) (hs : 0 < s) (f : Bool) (lo hi q t : Int) (h : lo ≤ hi) :
     strictIn (min (sgn f s * lo + t) (sgn f s * hi + t)) (max (sgn f s * lo + t) (sgn f s * hi + t))
       (sgn f s * q + 2 * t) = strictIn lo hi q := by
